@@ -93,6 +93,7 @@ def statements(pa: str, qa: str) -> List[str]:
         # uses of a name that the module AND the enclosing class bind (only importable in the nested-decoy scope)
         # aliases of members reached through a class whose linearisation differs from a depth-first walk of its bases
         f'from {pa}.c import Widget0\nZr0 = Widget0.render\nZo0 = Widget0.only_base', f'from {pa}.c import Page0 as Pg0\nZr1 = Pg0.render', f'import {pa}.c as cm0\nZr2 = cm0.Widget0.render',
+        f'from {pa}.b import fb, vb, Kb', f'import {pa}.b as mb2\nZf = mb2.fb\nZv = mb2.vb', f'from {pa}.c import fc as fcc, _hc',
         'Z15 = Dk', 'Z16 = Df\nclass Mine2(Dk):\n    "ID:Mine2"',
         f'from {pa}.w2 import go', f'from {pa}.w2 import go as go0, other2', f'from {pa} import w2 as w3\nZ17 = w3.go', f'import {pa}.w2\nZ18 = {pa}.w2.go\nZ19 = {pa}.w2.other2', f'from {pa}.w2 import *',
         f'from {pa}.emp import *', f'from {pa}.c import Widget0, Page0 as P0', f'import {pa}.c as dm', f'from {pa}.c import Widget0\nclass Mine(Widget0):\n    "ID:Mine"',
@@ -267,6 +268,21 @@ def run_case(tag: str, scope_idx: int, stmt_idx: Sequence[int], res: Dict[str, A
                 elif isinstance(v, types.ModuleType):
                     direct = True      # a module alias itself
                 walk(k, v, 1, False, direct)
+            # attributes that do not exist: a path that continues THROUGH a function or a variable denotes nothing in Python (AttributeError)
+            probes = ['Kb', 'Kc', 'fb', 'fc', 'Ka', 'Kd', 'mb', 'mc']
+            for k, v in bound.items():
+                if k.startswith('__') or k in ('Scope', 'Outer', 'Mid'):
+                    continue
+                if isinstance(v, types.FunctionType) or (not isinstance(v, (type, types.ModuleType)) and not callable(v)):
+                    for pr in probes:
+                        if hasattr(v, pr):
+                            continue
+                        r = scope_pd.resolveName(f'{k}.{pr}')
+                        if r is not None and isinstance(r.docstring, str) and r.docstring.startswith('ID:'):
+                            res['violations'].append(core.violation(
+                                f'resolves-nonexistent-attribute/{"function" if isinstance(v, types.FunctionType) else "variable"}',
+                                f'in scope {sname} after {generic}: {k + "." + pr!r} resolves to {r.fullName()} although {k} is a {type(v).__name__} without such an attribute', case))
+                            break
             # names pydoctor binds in this scope through imports although Python binds nothing there
             own_map = getattr(scope_pd, '_localNameToFullName_map', {})
             visible = set(bound) | (set(vars(um)) if scope_path else set())
